@@ -188,15 +188,18 @@ def dataContraction (t : TTN) (pid cid new : Id) : Option (TTN × Tensor) := do
 def enumFrom (l : List Id) (offset : Nat) : List (Id × Nat) :=
   (l.zipIdx).map (fun e => (e.1, e.2 + offset))
 
+/-- `if not parent_node.is_root(): new_node.open_leg_to_parent(parent_node.parent, 0)`. -/
+def ccnParentStep (n0 : NodeS) (gp : Option Id) : Option NodeS :=
+  match gp with
+  | some g => n0.openLegToParent g (some 0)
+  | none => some n0
+
 /-- `_create_contracted_node(new_tensor, new_identifier, parent_id, child_id, node_id1)`. -/
 def createContractedNode (t : TTN) (newTensor : Tensor) (pid cid id1 : Id) : Option NodeS := do
   let parentNode ← dget t.nodes pid
   let childNode ← dget t.nodes cid
   let newNode0 := nodeOfTensor newTensor
-  let newNode1 ←
-    match parentNode.parent with
-    | some gp => newNode0.openLegToParent gp (some 0)
-    | none => some newNode0
+  let newNode1 ← ccnParentStep newNode0 parentNode.parent
   if cid ∉ parentNode.children then none                          -- list.remove raises
   let parentChildren := parentNode.children.erase cid
   let parentChildDict := enumFrom parentChildren parentNode.nparents
@@ -269,8 +272,45 @@ def findOutChildren (outL inL : LegSpec) (outNode : NodeS) (inId : Id) : Option 
     else if outNode.nlegs = 0 then none
     else some (dupdate [(inId, outNode.nlegs - 1)] (enumFrom outL.childLegs 1))
 
+/-- `_set_in_parent_leg_after_split(in_node, in_legs, out_identifier)`. -/
+def setInParentLeg (inNode : NodeS) (inL : LegSpec) (outId : Id) : Option NodeS :=
+  match inL.parentLeg with
+  | some p => inNode.openLegToParent p (some 1)
+  | none => if !inL.isRoot then inNode.openLegToParent outId (some 0) else some inNode
+
+/-- `_set_out_parent_leg_after_split(out_node, out_legs, in_identifier)`. -/
+def setOutParentLeg (outNode : NodeS) (outL : LegSpec) (inId : Id) : Option NodeS :=
+  match outL.parentLeg with
+  | some p => outNode.openLegToParent p (some 0)
+  | none =>
+    if !outL.isRoot then
+      if outNode.nlegs = 0 then none else outNode.openLegToParent inId (some (outNode.nlegs - 1))
+    else some outNode
+
+/-- What `split_nodes` does to the freshly created in-node:
+    `_set_in_parent_leg_after_split`, then `_set_in_children_legs_after_split`. -/
+def buildInNode (inTensor : Tensor) (inL outL : LegSpec) (outId : Id) : Option NodeS := do
+  let inNode1 ← setInParentLeg (nodeOfTensor inTensor) inL outId
+  let inChildren ← findInChildren inL outL outId
+  inNode1.openLegsToChildren inChildren
+
+/-- What `split_nodes` does to the freshly created out-node:
+    `_set_out_parent_leg_after_split`, then `_set_out_children_legs_after_split`. -/
+def buildOutNode (outTensor : Tensor) (outL inL : LegSpec) (inId : Id) : Option NodeS := do
+  let outNode1 ← setOutParentLeg (nodeOfTensor outTensor) outL inId
+  let outChildren ← findOutChildren outL inL outNode1 inId
+  outNode1.openLegsToChildren outChildren
+
+/-- `_set_root_from_leg_specs`. -/
+def setRootFromLegSpecs (t : TTN) (inL outL : LegSpec) (inId outId : Id) : Option TTN :=
+  if inL.isRoot then (if outL.isRoot then none else some { t with root := some inId })
+  else if outL.isRoot then some { t with root := some outId }
+  else some t
+
 /-- `split_nodes(node_id, out_legs, in_legs, splitting_function, out_identifier, in_identifier)`;
     `bondDim` is the dimension of the new bond chosen by the splitting function.
+    The two fresh `Node` objects are independent, so the four `_set_*_after_split` calls are grouped
+    per node (`buildInNode`, `buildOutNode`); both objects are in `_nodes` before they are edited.
     (The model rejects `out_identifier = in_identifier`, for which the Python code has no meaning.) -/
 def splitNodes (t : TTN) (id : Id) (outL inL : LegSpec) (outId inId : Id) (bondDim : Nat) :
     Option TTN := do
@@ -282,38 +322,14 @@ def splitNodes (t : TTN) (id : Id) (outL inL : LegSpec) (outId inId : Id) (bondD
   let bond : Axis := ⟨t.nextLabel, bondDim⟩
   let (outTensor, inTensor) ← splitAxes tensor outInt inInt bond
   let tensors1 := dset (dset t1.tensors outId outTensor) inId inTensor
-  let outNode0 := nodeOfTensor outTensor
-  let inNode0 := nodeOfTensor inTensor
-  let nodes1 := dset (dset t1.nodes outId outNode0) inId inNode0
-  -- _set_in_parent_leg_after_split
-  let inNode1 ←
-    match inL.parentLeg with
-    | some p => inNode0.openLegToParent p (some 1)
-    | none => if !inL.isRoot then inNode0.openLegToParent outId (some 0) else some inNode0
-  -- _set_in_children_legs_after_split
-  let inChildren ← findInChildren inL outL outId
-  let inNode2 ← inNode1.openLegsToChildren inChildren
-  let nodes2 := dset nodes1 inId inNode2
-  -- _set_out_parent_leg_after_split
-  let outNode1 ←
-    match outL.parentLeg with
-    | some p => outNode0.openLegToParent p (some 0)
-    | none =>
-      if !outL.isRoot then
-        if outNode0.nlegs = 0 then none else outNode0.openLegToParent inId (some (outNode0.nlegs - 1))
-      else some outNode0
-  -- _set_out_children_legs_after_split
-  let outChildren ← findOutChildren outL inL outNode1 inId
-  let outNode2 ← outNode1.openLegsToChildren outChildren
-  let nodes3 := dset nodes2 outId outNode2
+  let nodes1 := dset (dset t1.nodes outId (nodeOfTensor outTensor)) inId (nodeOfTensor inTensor)
+  let inNode ← buildInNode inTensor inL outL outId
+  let outNode ← buildOutNode outTensor outL inL inId
+  let nodes3 := dset (dset nodes1 inId inNode) outId outNode
   let t2 : TTN := { t1 with nodes := nodes3, tensors := tensors1, nextLabel := t.nextLabel + 1 }
   let t3 ← t2.replaceNodeInSomeNeighbours outId id outL.allNeighbourIds
   let t4 ← t3.replaceNodeInSomeNeighbours inId id inL.allNeighbourIds
-  -- _set_root_from_leg_specs
-  let t5 ←
-    if inL.isRoot then (if outL.isRoot then none else some { t4 with root := some inId })
-    else if outL.isRoot then some { t4 with root := some outId }
-    else some t4
+  let t5 ← t4.setRootFromLegSpecs inL outL inId outId
   if id ≠ outId ∧ id ≠ inId then do
     let t6 ← t5.tensorsPop id
     let ns ← dpop t6.nodes id
